@@ -662,9 +662,37 @@ def check(prog, rep):
     registry_rule(prog, rep)
     values_rule(prog, rep)
     spacing_rule(prog, rep)
+    arity_rule(prog, rep)
+    # the value of a call is a function of its arguments: nothing evaluated earlier is remembered
+    from .c12 import stateless
+
+    stateless(prog, rep)
+
+
+def arity_rule(prog, rep):
+    """a call with its optional argument written out is well-formed: an up-front count test must leave room for it"""
+    rep.rule("ARITY", "QFunction.interpret does not refuse a call by comparing the number of written arguments for (in)equality with ONE number: some registered built-in has a parameter with a default, so two argument counts are valid for it (the count is otherwise left to the call itself, whose TypeError is reported)")
+    opt = [f for f in prog.registry() if f.node.args.defaults]
+    rep.floor("registered built-ins with an optional parameter", len(opt), 1)
+    fi = prog.func("QFunction.interpret")
+    bad = None
+    n = 0
+    for st in walk_own(fi.node):
+        if not isinstance(st, ast.If):
+            continue
+        for c in [x for x in ast.walk(st.test) if isinstance(x, ast.Compare) and len(x.ops) == 1]:
+            sides = [norm(c.left), norm(c.comparators[0])]
+            if not any(t in ("len(self.args)", "len(args)") for t in sides):
+                continue
+            n += 1
+            raising = st.body if isinstance(c.ops[0], ast.NotEq) else st.orelse if isinstance(c.ops[0], ast.Eq) else []
+            if any(isinstance(x, ast.Raise) for b in raising for x in ast.walk(b)):
+                bad = bad or (st, c)
+    rep.check(bad is None, "ARITY", fi.short, "argument-count tests", f"{n} count test(s), none an equality with a single number that raises", (f"`{norm(bad[1])}` refuses every call whose number of written arguments differs from one number, but {opt[0].short} (and any built-in with a defaulted parameter) may be called with or without its optional argument: a well-formed call that writes the optional argument out (or leaves it out) is rejected instead of being applied to its arguments" if bad else ""), fi.loc(bad[0]) if bad else fi.loc())
 
 
 VARIANTS = [
+    ("B call refused unless the argument count equals the number of required parameters", Q2, "        call_args = [datastore, namespace]\n", "        import inspect\n        required = [p for p in inspect.signature(functions[self.name]).parameters.values() if p.default is inspect.Parameter.empty]\n        if len(self.args) != len(required) - 2:\n            raise QueryInterpretException(\"invalid amount of arguments\")\n        call_args = [datastore, namespace]\n", "ARITY"),
     ("B QFunction.check drops a character (original defect)", Q2, "        if to_consume != 0:\n            return None, string\n        return string[:i], string[i:]", "        if to_consume != 0:\n            return None, string\n        return string[:i], string[i + 1 :]", "PARTITION"),
     ("B QList.check duplicates a character", Q2, "            prev_char = char\n        return string[:i], string[i:]\n\n\nqtypes", "            prev_char = char\n        return string[:i], string[i - 1 :]\n\n\nqtypes", "PARTITION"),
     ("B QInteger remainder off by one", Q2, "            if char.isdecimal():\n                token += char\n            else:\n                break\n        return token, string[len(token) :]", "            if char.isdecimal():\n                token += char\n            else:\n                break\n        return token, string[len(token) + 1 :]", "PARTITION"),
